@@ -2,6 +2,7 @@ package main
 
 import (
 	"fmt"
+	"go/ast"
 	"go/types"
 	"os"
 	"sort"
@@ -61,6 +62,7 @@ type Verifier struct {
 	findings      []Finding
 	curCtr        *Contract
 	curReplay     []replayVar
+	pkgInitDone   map[string]bool
 }
 
 func (v *Verifier) note(s string) { v.notes[s] = true }
@@ -248,6 +250,17 @@ func (v *Verifier) verifyFunc(ctr *Contract, fn *ssa.Function) (err error) {
 			st.assume(env.evalBool(cl.Expr))
 		}
 	}
+	for _, pi := range v.cs.PkgInits {
+		sp := v.ssaPkg(pi.Pkg)
+		if sp == nil {
+			continue // package not part of this program
+		}
+		v.checkPkgInits(pi.Pkg)
+		v.curFn = ctr.Key
+		v.curCtr = ctr
+		penv := &Env{fr: fr, st: st, old: st, vars: map[string]Value{}, noLocals: true, pkg: sp.Pkg}
+		st.assume(penv.evalBool(pi.Expr))
+	}
 	v.curReplay = st.flattenVars(fr.vars)
 	v.verifying = true
 	// vacuity: the precondition must be satisfiable
@@ -280,12 +293,15 @@ func (v *Verifier) verifyFunc(ctr *Contract, fn *ssa.Function) (err error) {
 		}
 		nret++
 		bindResults(vars, o.Res)
-		renv := &Env{fr: fr, st: o.St, old: fr.entry, vars: vars, noLocals: true}
+		renv := &Env{fr: fr, st: o.St, old: fr.entry, vars: vars, noLocals: true, callRes: o.CallRes}
 		// at-return assertions may mention source-level locals of the function
 		lfr := *fr
 		lfr.env, lfr.envAddr = o.Env, o.EnvAddr
-		lenv := &Env{fr: &lfr, st: o.St, old: fr.entry, vars: vars}
+		lenv := &Env{fr: &lfr, st: o.St, old: fr.entry, vars: vars, callRes: o.CallRes}
 		for _, cl := range ctr.Clauses {
+			if cl.Kind == "plet" {
+				vars[cl.Var] = renv.eval(cl.Expr)
+			}
 			if cl.Kind == "ensures" && clauseInProp(ctr, cl, v.prop) {
 				v.emit(fr, o.St, "post", cl.Name, renv.evalBool(cl.Expr), cl.Src)
 			}
@@ -329,4 +345,196 @@ func sortedKeys[T any](m map[string]T) []string {
 	}
 	sort.Strings(ks)
 	return ks
+}
+
+// ---- package-level facts (pkginit): established by the package initialiser, and the globals they
+// mention are never assigned elsewhere in the package. Assumed at the entry of every verified function
+// of that package.
+
+func identsOf(e ast.Expr) map[string]bool {
+	out := map[string]bool{}
+	ast.Inspect(e, func(n ast.Node) bool {
+		if id, ok := n.(*ast.Ident); ok {
+			out[id.Name] = true
+		}
+		return true
+	})
+	return out
+}
+
+func (v *Verifier) ssaPkg(path string) *ssa.Package {
+	for _, p := range v.prog.AllPackages() {
+		if p.Pkg.Path() == path {
+			return p
+		}
+	}
+	return nil
+}
+
+func (v *Verifier) pkgInitsFor(pkgPath string) []*PkgInit {
+	var out []*PkgInit
+	for _, pi := range v.cs.PkgInits {
+		if pi.Pkg == pkgPath {
+			out = append(out, pi)
+		}
+	}
+	return out
+}
+
+func rootGlobal(x ssa.Value) *ssa.Global {
+	for i := 0; i < 8; i++ {
+		switch t := x.(type) {
+		case *ssa.Global:
+			return t
+		case *ssa.IndexAddr:
+			x = t.X
+		case *ssa.FieldAddr:
+			x = t.X
+		case *ssa.UnOp:
+			x = t.X
+		case *ssa.Slice:
+			x = t.X
+		default:
+			return nil
+		}
+	}
+	return nil
+}
+
+func allFuncsOf(p *ssa.Package, prog *ssa.Program) []*ssa.Function {
+	var fns []*ssa.Function
+	var add func(f *ssa.Function)
+	add = func(f *ssa.Function) {
+		if f == nil {
+			return
+		}
+		fns = append(fns, f)
+		for _, a := range f.AnonFuncs {
+			add(a)
+		}
+	}
+	for _, m := range p.Members {
+		switch x := m.(type) {
+		case *ssa.Function:
+			add(x)
+		case *ssa.Type:
+			for _, t := range []types.Type{x.Type(), types.NewPointer(x.Type())} {
+				ms := prog.MethodSets.MethodSet(t)
+				for i := 0; i < ms.Len(); i++ {
+					if f := prog.MethodValue(ms.At(i)); f != nil && f.Synthetic == "" && f.Pkg == p {
+						add(f)
+					}
+				}
+			}
+		}
+	}
+	return fns
+}
+
+// checkPkgInits emits obligations <prop>/pkginit:<name>/{established,init-only} once per package
+func (v *Verifier) checkPkgInits(pkgPath string) {
+	if v.pkgInitDone[pkgPath] {
+		return
+	}
+	v.pkgInitDone[pkgPath] = true
+	pis := v.pkgInitsFor(pkgPath)
+	if len(pis) == 0 {
+		return
+	}
+	var sp *ssa.Package
+	for _, p := range v.prog.AllPackages() {
+		if p.Pkg.Path() == pkgPath {
+			sp = p
+		}
+	}
+	if sp == nil {
+		return
+	}
+	for _, pi := range pis {
+		ids := identsOf(pi.Expr)
+		fname := "pkginit:" + pi.Name
+		// (1) init-only: no store to the mentioned globals outside init
+		var offenders []string
+		for _, fn := range allFuncsOf(sp, v.prog) {
+			if fn.Name() == "init" || strings.HasPrefix(fn.Name(), "init#") {
+				continue
+			}
+			for _, b := range fn.Blocks {
+				for _, in := range b.Instrs {
+					var addr ssa.Value
+					switch s := in.(type) {
+					case *ssa.Store:
+						addr = s.Addr
+					case *ssa.MapUpdate:
+						addr = s.Map
+					}
+					if addr == nil {
+						continue
+					}
+					if g := rootGlobal(addr); g != nil && g.Pkg == sp && ids[g.Name()] {
+						offenders = append(offenders, fn.String()+" writes "+g.Name())
+					}
+				}
+			}
+		}
+		o := &Obligation{Prop: v.prop, Func: fname, Clause: "init-only", Kind: "pkginit", Goal: BoolT(len(offenders) == 0), What: "globals of the fact are assigned only by the package initialiser " + strings.Join(offenders, "; ")}
+		if len(offenders) == 0 {
+			o.Status = "trivial"
+		}
+		v.obls = append(v.obls, o)
+		nEst := 0
+		// (2) established by init
+		func() {
+			defer func() {
+				if r := recover(); r != nil {
+					if e, ok := r.(execErr); ok {
+						v.note("pkginit " + pi.Name + ": package initialiser not executable symbolically (" + e.msg + "); fact assumed")
+						return
+					}
+					panic(r)
+				}
+			}()
+			initFn := sp.Func("init")
+			if initFn == nil {
+				return
+			}
+			st := &State{heap: map[string]Cell{}, pcSet: map[string]bool{}, ghost: map[string]Value{}, eng: v.eng}
+			var outs []Outcome
+			fr := v.newFrame(initFn, &outs)
+			fr.top = true
+			v.curFn = fname
+			v.curCtr = nil
+			v.curReplay = nil
+			// globals of this package start zeroed
+			for _, m := range sp.Members {
+				if g, ok := m.(*ssa.Global); ok {
+					h, ok := v.globals[g]
+					if !ok {
+						h = v.eng.alloc()
+						v.globals[g] = h
+					}
+					elem := g.Type().(*types.Pointer).Elem()
+					st.heap[h.String()] = Cell{T: elem, V: st.zeroValue(elem)}
+				}
+			}
+			fr.entry = st.clone()
+			v.verifying = false
+			v.steps = 0
+			fr.enter(st, initFn.Blocks[0], nil)
+			v.verifying = true
+			for _, oc := range outs {
+				if oc.Panic || oc.St.dead {
+					continue
+				}
+				env := &Env{fr: fr, st: oc.St, old: oc.St, vars: map[string]Value{}, pkg: sp.Pkg, noLocals: true}
+				g := oc.St.norm(env.evalBool(pi.Expr))
+				if g.IsTrue() && nEst > 0 {
+					continue // one representative of the syntactically true instances is enough
+				}
+				nEst++
+				v.emit(fr, oc.St, "pkginit", "established", g, pi.Src)
+			}
+			v.verifying = false
+		}()
+	}
 }
